@@ -142,6 +142,11 @@ func gitEnv(extra ...string) []string {
 	return append(env, extra...)
 }
 
+// hangLimit: how long a subprocess may run before it is killed and reported as hanging (code -9). Twenty seconds
+// for the small repositories of most engines; engines with deliberately heavy cases raise it (see `rw`), so that a
+// loaded machine or the -race build does not turn a slow run into a "hang".
+var hangLimit = 20 * time.Second
+
 func runCmd(dir string, env []string, stdin []byte, name string, args ...string) (stdout, stderr []byte, code int) {
 	c := exec.Command(name, args...)
 	c.Dir = dir
@@ -165,7 +170,7 @@ func runCmd(dir string, env []string, stdin []byte, name string, args ...string)
 				code = -2
 			}
 		}
-	case <-time.After(20 * time.Second):
+	case <-time.After(hangLimit):
 		c.Process.Kill()
 		<-done
 		code = -9 // hang
